@@ -447,6 +447,13 @@ impl Interp {
                 }
                 hex(&out)
             }
+            ["nonce.inc.at", state] => {
+                // the real `IncreasingNonceGenerator` whose last handed-out nonce was `state`: the next one
+                let Some(b) = unhex(state) else { return "bad-op".into() };
+                let Ok(arr) = <[u8; 12]>::try_from(b.as_slice()) else { return "bad-op".into() };
+                let mut g = octo_squirrel::codec::aead::IncreasingNonceGenerator::verif_at(arr);
+                hex(g.generate())
+            }
             ["nonce.inc", n] => {
                 // the real `IncreasingNonceGenerator`: the nonce handed out by call number `n` (0-based)
                 let Some(n) = n.parse::<u64>().ok() else { return "bad-op".into() };
